@@ -133,7 +133,14 @@ class StmtMixin:
                 getattr(fr, "fn_key", None)
             ltag = self.uni.local_types.get(key, {}).get(t.id)
             if ltag and isinstance(v, VRef) and v.elem is None:
+                was_untyped_set = v.cls == "set"
                 v = self.mkref(v.e, ltag)
+                if was_untyped_set and v.cls == "set" and v.elem:
+                    # an empty set() that is typed by a declaration: its
+                    # (so far unwritten) contents are the empty set
+                    self.s_set(v, st, z3.K(sort_of(base_tag(v.elem)),
+                                           z3.BoolVal(False)))
+                    st.write("$card", v.e, z3.IntVal(0), "int")
             fr.env[t.id] = v
             return
         if isinstance(t, (ast.Tuple, ast.List)):
